@@ -139,7 +139,7 @@ def obligations(tier):
     if tier == 'quick':
         CONFIGS = [(0, True, 0), (0, False, 1), (0, True, 1), (1, True, 2), (1, False, 0), (2, True, 0), (2, False, 0), (3, True, 0), (4, True, 0), (4, False, 0), (5, True, 0)]
         BASIS = [5]
-        CONFIGS2 = [(0, True, 1), (0, False, 0), (1, True, 2), (1, False, 0), (2, True, 0), (4, True, 0)]
+        CONFIGS2 = [(0, True, 1), (1, False, 0), (4, True, 0)]
     else:
         CONFIGS = [(0, sp, k) for sp in (True, False) for k in (0, 1, 2)] + [(1, sp, k) for sp in (True, False) for k in (0, 2)] + [(2, sp, 0) for sp in (True, False)] + [(3, True, 0), (5, True, 0)] + [(4, sp, 0) for sp in (True, False)]
         BASIS = list(range(8))
@@ -169,10 +169,14 @@ def obligations(tier):
         obs.append(Obligation(f'circuit_unitary.{first}', body, twin=lambda cx, b=body: b(cx, wrong=True), opts={'weight': 4, 'max_paths': 100000}, desc=f'Circuit.unitary(qubit_order) of every {NOPS}-op circuit starting with {first} over the 19-gate menu, all placements on 3 wires, fresh symbolic parameters per op, vs ordered product of documented matrices embedded by index arithmetic'))
 
     # ---- simulators: basis / full-vector initial state, split on/off, steps ----------------------
-    sim_jobs = [(f, 1) for f in firsts] + [(f, 2) for f in (firsts if tier != 'quick' else QUICK_FIRST2)]
-    for first, nops in sim_jobs:
-        def body(cx, wrong=False, first=first, nops=nops):
-            qs, ops, steps = build_circuit(cx, N, nops, first, SECOND)
+    # one obligation per (first gate[, second gate]) so that the work spreads over all cores
+    if tier == 'quick':
+        sim_jobs = [(f, 1, None) for f in firsts] + [(f, 2, (g2,)) for f in QUICK_FIRST2 for g2 in QUICK_SECOND]
+    else:
+        sim_jobs = [(f, 1, None) for f in firsts] + [(f, 2, (g2,)) for f in firsts for g2 in firsts]
+    for first, nops, second in sim_jobs:
+        def body(cx, wrong=False, first=first, nops=nops, second=second):
+            qs, ops, steps = build_circuit(cx, N, nops, first, second)
             circuit = cirq.Circuit(ops)
             st = wrong_steps(steps) if wrong else steps
             cfgs = CONFIGS if (nops == 1 or tier != 'quick') else CONFIGS2
@@ -221,7 +225,7 @@ def obligations(tier):
                 got = cirq.final_state_vector(circuit, initial_state=init, qubit_order=qs, dtype=np.complex128)
                 cx.close(got, exp, label='cirq.final_state_vector')
 
-        obs.append(Obligation(f'simulate{nops}.{first}', body, twin=lambda cx, b=body: b(cx, wrong=True), opts={'weight': 10, 'max_paths': 200000}, desc=f'Simulator.simulate / simulate_moment_steps (split_untangled_states on/off, permuted qubit order), Circuit.final_state_vector, cirq.final_state_vector, DensityMatrixSimulator on every {nops}-op circuit starting with {first}; initial state = every basis index or a fully SYMBOLIC state vector'))
+        obs.append(Obligation(f'simulate{nops}.{first}' + (f'.{second[0]}' if second else ''), body, twin=lambda cx, b=body: b(cx, wrong=True), opts={'weight': 10, 'max_paths': 200000}, desc=f'Simulator.simulate / simulate_moment_steps (split_untangled_states on/off, permuted qubit order), Circuit.final_state_vector, cirq.final_state_vector, DensityMatrixSimulator on every {nops}-op circuit starting with {first}; initial state = every basis index or a fully SYMBOLIC state vector'))
     # ---- ClassicalStateSimulator on reversible classical circuits: symbolic classical bits ---------------------
     def classical_menu():
         xor2 = cirq.SumOfProducts([[0, 1], [1, 0]])
@@ -348,7 +352,7 @@ LEVEL = (
 def main(tier, seed=0, replay=None, only=None, procs=None):
     bounds = {
         'wires': 3,
-        'ops_per_circuit': '2: Circuit.unitary on every ordered pair over the 19-gate menu with every placement; simulators: first op over the 19-gate menu, second op over a 5-gate sub-menu and 4 first gates with 6 configurations (quick; plus all 19 single-op circuits with 11 configurations) / the full menu (thorough), every placement',
+        'ops_per_circuit': '2: Circuit.unitary on every ordered pair over the 19-gate menu with every placement; simulators: first op over the 19-gate menu, second op over a 5-gate sub-menu and 4 first gates with 3 configurations (quick; plus all 19 single-op circuits with 11 configurations) / the full menu (thorough), every placement',
         'simulator_configs': '11 (quick) / 18 x 8 basis states (thorough) combinations of entry point, split_untangled_states, initial-state kind',
         'parameter_box': [-BOX, BOX],
         'amplitude_box': [-1, 1],
